@@ -1,6 +1,6 @@
 #!/bin/bash
 # usage: tools/evalmut.sh <name> <demo-dest> "<demo cmd>" <ID>...   confirm a sub-agent's change, then run the checks on it
 name=$1; dest=$2; cmd=$3; shift 3
-/verif/tools/confirm_mut.sh $name $dest "$cmd" 2>&1 | grep -E "CONFIRMED|REJECT|FAILED"
+$(dirname $0)/confirm_mut.sh $name $dest "$cmd" 2>&1 | grep -E "CONFIRMED|REJECT|FAILED"
 echo "#### $name"
-/verif/tools/trymut.sh /tmp/mut-$name/patch.diff "$@" 2>&1 | grep -E "^== |VIOLATION|!!" | head -4 | cut -c1-150
+$(dirname $0)/trymut.sh /tmp/mut-$name/patch.diff "$@" 2>&1 | grep -E "^== |VIOLATION|!!" | head -4 | cut -c1-150
